@@ -1,6 +1,7 @@
 (* C18 model runner.  Input line: ID<TAB>ENC [## source text (ignored)]
    ENC (space separated tokens, names are UTF-8 words):
-     case := "U" n rune*  "W" n (name decl)*  "O" n op*
+     world line := "D" key "U" n rune* "W" n (name decl)*      (defines world <key>)
+     case line  := "X" key "U" n rune* "O" n op*                (ops on a fresh copy of world <key>)
      decl := "I" z | "F" n name* body | "H" n (name decl)* | "P" name n (name decl)* | "R" n name*
      body := "G" name | "S" name | "D" n name*
      op   := "g" route n name* | "s" route n name* z | "c" n name* n z*
@@ -97,6 +98,8 @@ let show_err = function
   | ECrash -> "CRASH"
   | EFuel -> "FUEL"
 
+let worlds : (string, int list * heap option) Hashtbl.t = Hashtbl.create 16
+
 let () =
   iter_lines (fun line ->
     match split_tab line with
@@ -107,32 +110,48 @@ let () =
          String.sub body 0 (find 0)) in
       toks := Array.of_list (split_sp enc); pos := 0;
       (try
-        if next () <> "U" then failwith "expected U";
-        let nu = next_int () in
-        let uppers = times nu next_int in
-        let is_upper (z : z) = List.mem (int_of_z z) uppers in
-        if next () <> "W" then failwith "expected W";
-        let nd = next_int () in
-        let defs = times nd (fun () -> let k = next_name () in let d = parse_decl () in (k, d)) in
-        if next () <> "O" then failwith "expected O";
-        let no = next_int () in
-        let ops = times no parse_op in
-        (match build_world is_upper heap0 defs with
-         | Err e -> Printf.printf "%s\tBUILD-%s\tBUILD-%s\n" id (show_err e) (show_err e)
-         | Ok h0 ->
-           let hm = ref h0 and hs = ref h0 in
-           let mo = List.map (fun p ->
-             match run_op is_upper !hm p.o with
-             | Ok (h', v) -> hm := h'; project p.route h' v
-             | Err e -> show_err e) ops in
-           let so = List.map (fun p ->
-             match spec_op is_upper !hs p.o with
-             | Allowed (h', v) -> hs := h'; project p.route h' v
-             | Denied (m, pk) -> "PRIV:" ^ string_of_name m ^ ":" ^ string_of_name pk
-             | NotFound -> "NF"
-             | NotRecord -> "NOTREC"
-             | Malformed -> "MALFORMED") ops in
-           Printf.printf "%s\t%s\t%s\n" id (String.concat "|" mo) (String.concat "|" so))
+        let parse_uppers () =
+          if next () <> "U" then failwith "expected U";
+          let nu = next_int () in times nu next_int in
+        let run_ops uppers h0 =
+          let is_upper (z : z) = List.mem (int_of_z z) uppers in
+          if next () <> "O" then failwith "expected O";
+          let no = next_int () in
+          let ops = times no parse_op in
+          let hm = ref h0 and hs = ref h0 in
+          let mo = List.map (fun p ->
+            match run_op is_upper !hm p.o with
+            | Ok (h', v) -> hm := h'; project p.route h' v
+            | Err e -> show_err e) ops in
+          let so = List.map (fun p ->
+            match spec_op is_upper !hs p.o with
+            | Allowed (h', v) -> hs := h'; project p.route h' v
+            | Denied (m, pk) -> "PRIV:" ^ string_of_name m ^ ":" ^ string_of_name pk
+            | NotFound -> "NF"
+            | NotRecord -> "NOTREC"
+            | Malformed -> "MALFORMED") ops in
+          Printf.printf "%s\t%s\t%s\n" id (String.concat "|" mo) (String.concat "|" so) in
+        (match next () with
+         | "D" ->
+           let key = next () in
+           let uppers = parse_uppers () in
+           let is_upper (z : z) = List.mem (int_of_z z) uppers in
+           if next () <> "W" then failwith "expected W";
+           let nd = next_int () in
+           let defs = times nd (fun () -> let k = next_name () in let d = parse_decl () in (k, d)) in
+           (match build_world is_upper heap0 defs with
+            | Err e -> Hashtbl.replace worlds key (uppers, None);
+              Printf.printf "%s\tBUILD-%s\tBUILD-%s\n" id (show_err e) (show_err e)
+            | Ok h0 -> Hashtbl.replace worlds key (uppers, Some h0);
+              Printf.printf "%s\tWORLD\tWORLD\n" id)
+         | "X" ->
+           let key = next () in
+           let u2 = parse_uppers () in
+           (match Hashtbl.find_opt worlds key with
+            | Some (u1, Some h0) -> run_ops (u1 @ u2) h0
+            | Some (_, None) -> Printf.printf "%s\tBUILD-FAILED\tBUILD-FAILED\n" id
+            | None -> failwith ("unknown world " ^ key))
+         | t -> failwith ("bad case kind " ^ t))
       with Failure m -> Printf.printf "%s\tRUNNER-ERROR %s\t-\n" id m
          | Invalid_argument m -> Printf.printf "%s\tRUNNER-ERROR %s\t-\n" id m)
     | _ -> failwith ("bad line: " ^ line))
